@@ -4,7 +4,7 @@ from harness.common import *
 SPEC = {
     'technique': 'symbolic execution of AbstractChunk._cleanup_pdf (MSA cropping) through the pandas model on '
                  'symbolic hit tables; row-by-row oracle and two 2-run (metamorphic) comparisons decided per path by z3',
-    'bounds': {'quick': 'H-crop: tables of <= 3 rows, 2 ceilometers, every height (NaN included), type -1..4, any MSA >= 0 '
+    'bounds': {'quick': 'H-crop: tables of <= 4 rows, 2 ceilometers, every height (NaN included), type -1..4, any MSA >= 0 '
                         'or None, buffer >= 0, MAX_HITS_OKTA0 >= 0; H-crop-init (whole constructor incl. the consistency check): <= 2 rows',
                'thorough': 'H-crop <= 5 rows; H-crop-init <= 3 rows'},
     'outside': 'that the later stages read nothing but the cleaned table, the flag and the parameters (C13 module-state '
@@ -130,7 +130,7 @@ def h_crop(E, N, msa_none, full):
 COVER = ['row above the limit turned into a non-detection', 'VV hit above the limit', 'row exactly at the limit kept',
          'row with NaN height kept', 'row above the limit dropped', 'flag raised', 'flag not raised with hits above']
 HARNESSES = [
-    H('H-crop', h_crop, quick=[(n, 0, 0) for n in (1, 2, 3)] + [(2, 1, 0)],
+    H('H-crop', h_crop, quick=[(n, 0, 0) for n in (1, 2, 3, 4)] + [(2, 1, 0)],
       thorough=[(n, 0, 0) for n in (1, 2, 3, 4, 5)] + [(3, 1, 0)], float_model='R', cover=COVER + ['no MSA'],
       assumptions=['H-crop: utils.check_data_consistency replaced by the identity (its contract is C15; the whole '
                    'constructor is run unstubbed in H-crop-init)'],
